@@ -20,6 +20,7 @@ type RValue struct {
 	Adr  bool
 	Zero bool // reflect.Zero(T)
 	S    Slice // the slice held (when T is a slice type made by reflect.MakeSlice)
+	V    Value // the value held for maps (reflect.ValueOf(m)) and map keys (MapKeys)
 }
 
 func (e *Exec) resolveCallee(f *Frame, c *ssa.CallCommon) (*Closure, []Value) {
@@ -148,6 +149,54 @@ func (e *Exec) parseDecimal(args []Value, signed bool) (Value, bool) {
 		return fail("strconv.ErrRange", k64(-cutoff)), true
 	}
 	return Tuple{c.Bin(term.OpSub, k64(0), val), Iface{}}, true
+}
+
+// formatDecimal summarises strconv.Itoa / FormatUint / FormatInt / AppendUint / AppendInt in base 10
+// for a symbolic value known to lie in 0..65535 (the decimal formatter of the fmt model: one branch
+// per digit count); everything else is left to the real code.
+func (e *Exec) formatDecimal(name string, args []Value) (Value, bool) {
+	vi := 0
+	isAppend := strings.HasPrefix(name, "strconv.Append")
+	if isAppend {
+		vi = 1
+	}
+	v, ok := args[vi].(*term.T)
+	if !ok || v.IsConst() {
+		return nil, false
+	}
+	if name != "strconv.Itoa" {
+		b, ok := args[vi+1].(*term.T)
+		if !ok || !b.IsConst() || b.Val != 10 {
+			return nil, false
+		}
+	}
+	if _, hi := v.Range(); hi > 65535 {
+		return nil, false
+	}
+	if name == "strconv.Itoa" || name == "strconv.FormatInt" || name == "strconv.AppendInt" {
+		if lo, _ := v.SRange(); lo < 0 {
+			return nil, false
+		}
+	}
+	w := v
+	if w.Sort.W > 32 {
+		w = e.C.Extract(w, 31, 0)
+	} else if w.Sort.W < 32 {
+		w = e.C.ZExt(w, 32)
+	}
+	digits := e.decimal(w)
+	if !isAppend {
+		return &Str{B: digits}, true
+	}
+	dst := args[0].(Slice)
+	arr := e.newArrayObj(types.Typ[types.Uint8], dst.Len+len(digits))
+	for i := 0; i < dst.Len; i++ {
+		arr.V.(*Array).E[i] = e.sliceElem(dst, i)
+	}
+	for i, d := range digits {
+		arr.V.(*Array).E[dst.Len+i] = d
+	}
+	return Slice{Arr: arr, Len: dst.Len + len(digits), Cap: dst.Len + len(digits)}, true
 }
 
 // formatVerbs returns the verb letter consuming each successive operand of a format string ('?' for
@@ -312,6 +361,12 @@ func (e *Exec) invoke(t *Thread, f *Frame, clo *Closure, args []Value, call *ssa
 	if n := fnName(clo.Fn); (n == "strconv.ParseInt" || n == "strconv.ParseUint") && os.Getenv("KV_NOSUMMARY") == "" {
 		if res, ok := e.parseDecimal(args, n == "strconv.ParseInt"); ok {
 			e.Stats.Stubs[n+" (base 10, symbolic digits: summarised)"] = true
+			return finish(res)
+		}
+	}
+	if n := fnName(clo.Fn); os.Getenv("KV_NOSUMMARY") == "" && (n == "strconv.Itoa" || n == "strconv.FormatUint" || n == "strconv.FormatInt" || n == "strconv.AppendUint" || n == "strconv.AppendInt") {
+		if res, ok := e.formatDecimal(n, args); ok {
+			e.Stats.Stubs[n+" (base 10, symbolic value below 65536: built-in decimal formatter)"] = true
 			return finish(res)
 		}
 	}
